@@ -49,7 +49,17 @@ def run(chk: Check):
     chk.note(f"design variant 'parameters read from the cache': {r.error} (expected invariant:AncestralOK)")
     if r.error != "invariant:AncestralOK":
         raise MachineryError("reading cached parameters should violate AncestralOK with auto-update off")
-    traces = S.fixed_traces() + [S.random_trace(rng) for _ in range(110 if chk.quick else 1500)]
+    chk.tv("Trace_Simulate.tla", [S.tfp_shape_trace()], tag="tfp_shapes", cfg_extra=TV_CFG,
+           keyfn=lambda r: f"simulate:{r.conjunct}:tfp", describe=lambda r: str(r.trace["ev"][r.line - 1])[:300])
+    try:
+        traces = S.fixed_traces() + [S.random_trace(rng) for _ in range(110 if chk.quick else 1500)]
+    except Exception as ex:  # noqa: BLE001
+        if not chk.violations:
+            raise
+        # the fake distributions of the integer regime could not be driven; the run with real distributions above has
+        # already produced a verdict
+        chk.note(f"integer-regime traces could not be generated ({type(ex).__name__}: {ex})"[:300])
+        traces = []
 
     def nontrivial(t):
         cached_link = any(p["kind"] == "c" for p in t["hdr"]["plan"])
@@ -61,7 +71,8 @@ def run(chk: Check):
                 return True
         return False
 
-    chk.tv("Trace_Simulate.tla", traces, tag="hierarchies", cfg_extra=TV_CFG, nontrivial=nontrivial, timeout=1800,
+    if traces:
+      chk.tv("Trace_Simulate.tla", traces, tag="hierarchies", cfg_extra=TV_CFG, nontrivial=nontrivial, timeout=1800,
            keyfn=lambda r: f"simulate:{r.conjunct}:{r.trace['ev'][r.line - 1]['ev']}",
            describe=lambda r: f"plan {[p['kind'] for p in r.trace['hdr']['plan']]}")
 
